@@ -30,6 +30,15 @@ bytes that are handed out (returned / appended to a sink, by the method itself
 or by a reader method it delegates to, followed for two levels with the
 caller's path facts) after a failed delimiter search end at least
 len(delimiter) - 1 bytes before the end of the searched range.
+R7 also covers coroutines of the asynchronous reader that search the buffer
+themselves and serve a capped read straight from it (decided like R10).
+R11 (async, shared with C13 as its R9) every chunk of the normalising source
+iterator that is followed by another one is at least as long as the widest
+look-ahead `item[:k]` of a delimiter search over self._source can be
+(k = len(delimiter) - 1 <= chunk_size - 1 by the delimiter-length guard).
+R12 (sync) per-method contract size >= 0 ==> len(result) <= size, proved for
+every method with a `size` parameter from the contracts of its callees
+(frozen table of assumed, loop-carried contracts: _CAP_ASSUMED).
 """
 
 from __future__ import annotations
@@ -487,16 +496,22 @@ def r4_position(run):
                        rw='tell() drifts from the bytes actually delivered')
     cfg = cfg_of(norm, p)
     run.use_cfg(cfg)
+    seqs = {x.value.id for x in walk_self(norm.node) if isinstance(x, ast.Yield) and isinstance(x.value, ast.Name)}
+    seqs |= {x.target.id for x in walk_self(norm.node) if isinstance(x, (ast.For, ast.AsyncFor)) and isinstance(x.target, ast.Name)}
     for start, steps, end in segments(cfg):
         env = Env()
         c0 = env.declare(CONS, 'int')
-        for e in run_steps(env, cfg, steps):
+        _mark_items(env, seqs)
+        for e in run_steps(env, cfg, steps, lambda en, _n, _l: _mark_items(en, seqs)):
             out, last = Lin.const(0), None
             for k, val, node in e.log:
                 if k == 'yield':
                     out = out + e.length(val, short(node, 30))
                     last = node
             d = e.eval(_expr(CONS)) - c0
+            if isinstance(d, Lin) and not e.prove_eq(d, out) and (d - out).tainted():
+                v.unknown('%s: %s' % (norm.qual, '; '.join(e.notes[-2:]) or 'length of a yielded value not modelled'))
+                continue
             v.note(norm, 'consumed', '_consumed grows by exactly the length of every chunk the source iterator yields', isinstance(d, Lin) and e.prove_eq(d, out),
                    last if last is not None else norm.name, '_consumed grows by %r while %r bytes are yielded' % (d, out),
                    flow.describe_path(cfg, [s[0] for s in steps]), 'tell() lags behind / runs ahead of the bytes returned by read()')
@@ -740,7 +755,8 @@ class _StreamModel:
         self.len_params = set(len_params)       # parameters of f that always carry len(delimiter) or 0 (R3's _delim_params)
         # methods through which new stream data enters (they call the source callable); none in the asynchronous reader
         self.src_methods = {n for n, g in rd.methods.items() if n != '__init__' and any(
-            isinstance(x, ast.Attribute) and dotted(x) == SOURCE_FN and isinstance(x.ctx, ast.Load) for x in walk_self(g.node))}
+            isinstance(x, ast.Attribute) and isinstance(x.ctx, ast.Load) and (dotted(x) == SOURCE_FN or (mode == 'R10' and dotted(x) == SOURCE_IT))
+            for x in walk_self(g.node))}
         # R10: obligations met inside a callee are reported at the delegating call of the method under analysis
         self.depth, self.report_f, self.top, self.stack, self.subs = 0, f, None, (f.qual,), {}
 
@@ -1042,7 +1058,7 @@ class _StreamModel:
                 if short_of and any(env._le0(Lin.const(1) - fct) for fct in env.facts):
                     continue                        # the path facts contradict each other: not a feasible path
                 msg = '%r byte(s) lie between the end of the bytes handed out%s and the end of the searched range; not provably >= len(delimiter) - 1' % (
-                    (short_of[0] - hi) if short_of else 0, '' if self.depth == 0 else ' (`%s` in %s())' % (short(s, 50), self.f.name))
+                    (short_of[-1] - hi) if short_of else 0, '' if self.depth == 0 else ' (`%s` in %s())' % (short(s, 50), self.f.name))
                 self.v.note(self.report_f, 'delimiter tail kept @%s' % unparse(top),
                             'when the delimiter was not found in the buffered data and no new data is fetched, the bytes handed out (by the method or the '
                             'reader methods it delegates to) stay at least len(delimiter) - 1 bytes short of the end of the searched range',
@@ -1056,7 +1072,7 @@ class _StreamModel:
         g = env.ghost
         if g.get('fetched') or g['lost'] or callee.name == 'peek' or not ({BUF, BPOS} & (self.rd.writes(callee.name) or set())):
             return
-        if self.depth >= 2 or callee.qual in self.stack or callee.is_async:
+        if self.depth >= 2 or callee.qual in self.stack or any(isinstance(x, (ast.Yield, ast.YieldFrom)) for x in walk_self(callee.node)):
             if self.vouching(env):
                 self.unknown('`%s`: a hand-out more than two calls away from the search is not followed' % short(call, 50))
             return
@@ -1184,6 +1200,12 @@ class _StreamModel:
                 was_lost = env.ghost['lost']
                 if self.mode == 'R9':
                     self.commit(env, 'when %s() is called' % fn.attr, call)
+                if self.mode == 'R10' and not self.quiet and not was_lost:
+                    # the cursor has already moved over bytes a local still holds: they are handed out (or skipped) whatever the callee does
+                    cur = self.cursor(env)
+                    for nm_, reg in sorted(env.ghost['regions'].items()):
+                        if cur is not None and len(reg) == 1 and reg[0][0] == 'buf' and reg[0][3] and env.prove_eq(reg[0][2], cur):
+                            self.tail_check(env, list(reg), call)
                 env.havoc(hv, 'after %s' % fn.attr)
                 nb = env.vars[BUF].lone() if BUF in env.vars and isinstance(env.vars[BUF], Lin) else None
                 if BUF in hv and nb is not None:
@@ -1431,6 +1453,12 @@ def r7_delimiter_not_split(run):
         raise AnchorError('%s: no generator method takes a %s and hands out buffered data' % (ASYNC, DELIM))
     for f in gens:
         _StreamModel(run, v, rd, f, 'R7').execute()
+    # a coroutine (no generator) that searches the buffered data itself and returns / moves the cursor over buffered bytes on the strength
+    # of a failed search: the same margin, decided like the synchronous reader's R10 (nothing is fetched between search and hand-out)
+    for name, f in sorted(rd.methods.items()):
+        if f not in gens and DELIM in f.params() and not any(isinstance(x, (ast.Yield, ast.YieldFrom)) for x in walk_self(f.node)) \
+                and any(_is_delim_find(c) for c in walk_self(f.node)):
+            _StreamModel(run, v, rd, f, 'R10').execute()
     v.flush()
 
 
@@ -1560,7 +1588,18 @@ def _lookahead_slack(run, v, rd):
         if not loops:
             continue
         finds = [c for c in walk_self(f.node) if _is_delim_find(c)]
-        recv_names = {c.func.value.id for c in finds if isinstance(c.func.value, ast.Name)}
+        recv_names = {x.id for c in finds for x in ast.walk(c.func.value) if isinstance(x, ast.Name)}
+        grew = True
+        while grew:         # locals the searched value is put together from
+            grew = False
+            for st in walk_self(f.node):
+                if isinstance(st, (ast.Assign, ast.AnnAssign, ast.AugAssign)) and getattr(st, 'value', None) is not None:
+                    tg = st.targets if isinstance(st, ast.Assign) else [st.target]
+                    if any(isinstance(t, ast.Name) and t.id in recv_names for t in tg):
+                        add = {x.id for x in ast.walk(st.value) if isinstance(x, ast.Name)} - recv_names
+                        if add:
+                            recv_names |= add
+                            grew = True
         items = {lp.target.id for lp in loops}
 
         def lookaheads(node):
@@ -1706,6 +1745,278 @@ def r11_min_chunk(run):
     v.flush()
 
 
+# ---------------------------------------------------------------------------
+# R12 size cap of the synchronous reader: a read with a non-negative `size` returns at most `size` bytes
+#
+# Assume/guarantee over the reader's own methods: every method with a parameter named `size` (public API name of the cap) has the
+# contract  size >= 0  ==>  len(result) <= size.  Each such method is PROVED from the contracts of the reader methods it calls
+# (linear evaluator, upper bounds for slices / concatenations), except the ones in _CAP_ASSUMED, whose contract is value-level
+# (loop-carried accounting) and is taken as given with one line of reason each.
+# ---------------------------------------------------------------------------
+
+CAP = 'size'
+_CAP_ASSUMED = {
+    '_perform_read': 'asks the source callable for at most `size` bytes in total (loop-carried; the requests are R2\'s, the callable honours its argument)',
+    '_read_until': 'collects a backlog over loop iterations and returns through _finalize_read_until (loop-carried accounting of have_bytes; cursor: R9/R10)',
+    '_finalize_read_until': 'joins the backlog with a final read of size - have_bytes (relies on have_bytes == total length of the backlog)',
+}
+# writes at most min(chunk_size, remaining) bytes per iteration while remaining > 0 and decreases remaining by chunk_size: at most `_size` in total
+_CAP_SINKS = {'pipe_until': ('destination', '_size')}
+
+
+def _bind_call(callee, call):
+    """{parameter name: argument expression} by the callee's signature (defaults included); None when not understood."""
+    a = callee.node.args
+    if a.vararg or a.kwarg or any(isinstance(x, ast.Starred) for x in call.args) or any(k.arg is None for k in call.keywords):
+        return None
+    names = [x.arg for x in a.posonlyargs + a.args]
+    if names and names[0] == 'self':
+        names = names[1:]
+    out = dict(zip(names[len(names) - len(a.defaults):], a.defaults)) if a.defaults else {}
+    out.update({x.arg: d for x, d in zip(a.kwonlyargs, a.kw_defaults) if d is not None})
+    if len(call.args) > len(names):
+        return None
+    for nm, x in zip(names, call.args):
+        out[nm] = x
+    for k in call.keywords:
+        if k.arg not in names and k.arg not in [x.arg for x in a.kwonlyargs]:
+            return None
+        out[k.arg] = k.value
+    return out
+
+
+class _CapModel:
+    def __init__(self, run, v, rd, f):
+        self.run, self.v, self.rd, self.f, self.p = run, v, rd, f, run.project
+        self.cfg = cfg_of(f, run.project)
+        run.use_cfg(self.cfg)
+        self.params = set(f.params())
+
+    # ------------------------------------------------------------------ state
+    def start_env(self):
+        env = _start_env(self.rd, self.f, self.on_call)
+        env.declare(CHUNK, 'nat')
+        env.declare(BUDGET, 'nat')
+        cap = env.declare(CAP, 'int')
+        env.add_le(0, cap)
+        env.is_none[('v', CAP)] = False
+        env.ghost.update(known=frozenset(), sinks={}, ub={}, callmemo={})
+        return env
+
+    def invariants(self, env):
+        nb = env.vars[BUF].lone() if BUF in env.vars and isinstance(env.vars[BUF], Lin) else None
+        if nb is not None:
+            env.kind[nb] = 'seq'
+        env.add_eq(env.eval(_E_BLEN), env.length(env.eval(_E_BUF), BUF))
+        env.add_le(0, env.eval(_E_BPOS))
+        env.add_le(env.eval(_E_BPOS), env.eval(_E_BLEN))
+
+    def known(self, env, atom):
+        env.ghost['known'] = env.ghost['known'] | {atom}
+
+    # ------------------------------------------------------------------ calls
+    def on_call(self, env, call):
+        memo = env.ghost['callmemo']
+        if id(call) in memo:
+            return memo[id(call)]
+        r = self._on_call(env, call)
+        if r is not None:
+            env.ghost['callmemo'] = {**env.ghost['callmemo'], id(call): r}
+        return r
+
+    def sink_of(self, env, e):
+        val = env.eval(e) if isinstance(e, (ast.Name, ast.Attribute)) else None
+        a = val.lone() if isinstance(val, Lin) else None
+        return a if a in env.ghost['sinks'] else None
+
+    def _on_call(self, env, call):
+        fn = call.func
+        g = env.ghost
+        q = self.p.resolve_expr(self.f.module, fn, self.f) if isinstance(fn, (ast.Name, ast.Attribute)) else None
+        if q == 'io.BytesIO' and len(call.args) <= 1 and not call.keywords:
+            s = fresh('sink')
+            init = env.length(env.eval(call.args[0]), short(call.args[0], 30)) if call.args else Lin.const(0)
+            g['sinks'] = {**g['sinks'], s: init}
+            return Lin.atom(s)
+        if isinstance(fn, ast.Attribute) and dotted(fn.value) != 'self':
+            s = self.sink_of(env, fn.value)
+            if s is not None and fn.attr == 'write' and len(call.args) == 1 and not call.keywords:
+                g['sinks'] = {**g['sinks'], s: g['sinks'][s] + env.length(env.eval(call.args[0]), short(call.args[0], 30))}
+                return NONE
+            if s is not None and fn.attr == 'getvalue' and not call.args and not call.keywords:
+                return Seq(g['sinks'][s])
+            if s is not None:
+                g['sinks'] = {**g['sinks'], s: Lin.atom(fresh('len(sink) after .%s()' % fn.attr, tainted=True))}
+        if not (isinstance(fn, ast.Attribute) and dotted(fn.value) == 'self' and fn.attr in self.rd.methods):
+            # a sink given to anything else: its content is no longer known
+            for a in list(call.args) + [k.value for k in call.keywords]:
+                s = self.sink_of(env, a)
+                if s is not None:
+                    g['sinks'] = {**g['sinks'], s: Lin.atom(fresh('len(sink) after %s' % short(call, 30), tainted=True))}
+            return None
+        callee = self.rd.methods[fn.attr]
+        bound = _bind_call(callee, call)
+        if bound is None:
+            self.v.unknown('%s: arguments of `%s` not understood' % (self.f.qual, short(call, 50)))
+            bound = {}
+        vals = {k: env.eval(x) for k, x in bound.items()}
+        res = fresh('result of %s()' % fn.attr)
+        env.kind[res] = 'seq'
+        R = Lin.atom(res)
+        if fn.attr == '_normalize_size':
+            # R5: the normalised size lies in [0, readable amount]; proved here (its own R12 obligation): <= size for size >= 0
+            env.kind[res] = 'int'
+            env.add_le(0, R)
+            x = vals.get(CAP, next(iter(vals.values()), None))
+            if isinstance(x, Lin) and env.prove_le(0, x) and not (x.lone() is not None and env.is_none.get(x.lone())):
+                env.add_le(R, x)
+            return R
+        if fn.attr in _CAP_SINKS:
+            dparam, cparam = _CAP_SINKS[fn.attr]
+            s = vals.get(dparam)
+            s = s.lone() if isinstance(s, Lin) else None
+            if s in g['sinks']:
+                c = vals.get(cparam)
+                n = fresh('bytes written by %s()' % fn.attr)
+                env.kind[n] = 'int'
+                env.add_le(0, Lin.atom(n))
+                if isinstance(c, Lin) and env.prove_le(0, c):
+                    env.add_le(Lin.atom(n), c)
+                self.known(env, n)
+                g['sinks'] = {**g['sinks'], s: g['sinks'][s] + Lin.atom(n)}
+        elif CAP in callee.params():
+            c = vals.get(CAP)
+            self.known(env, res)             # a read: its length is bounded by its cap, or genuinely unbounded
+            if isinstance(c, Lin) and env.prove_le(0, c) and not (c.lone() is not None and env.is_none.get(c.lone())):
+                env.add_le(Lin.atom(('len', res)), c)
+        for a in list(call.args) + [k.value for k in call.keywords]:
+            s = self.sink_of(env, a)
+            if s is not None and fn.attr not in _CAP_SINKS:
+                g['sinks'] = {**g['sinks'], s: Lin.atom(fresh('len(sink) after %s' % short(call, 30), tainted=True))}
+        hv = [a for a in (BUF, BLEN, BPOS, BUDGET) if a in (self.rd.writes(fn.attr) or set())]
+        if hv:
+            env.havoc(hv, 'after %s' % fn.attr)
+            for a in (BLEN, BPOS, BUDGET):
+                if a in hv:
+                    env.kind[env.vars[a].lone()] = 'nat' if a == BUDGET else 'int'
+            self.invariants(env)
+        return R
+
+    # ------------------------------------------------------------ upper bounds
+    def upper(self, env, e):
+        """A linear upper bound of len(e), or None."""
+        e = strip_await(e)
+        if isinstance(e, ast.BinOp) and isinstance(e.op, ast.Add):
+            a, b = self.upper(env, e.left), self.upper(env, e.right)
+            return a + b if a is not None and b is not None else None
+        if isinstance(e, ast.Name) and e.id in env.ghost['ub']:
+            return env.ghost['ub'][e.id]
+        if isinstance(e, ast.IfExp):
+            d = env.decide(e.test)
+            if d is not None:
+                return self.upper(env, e.body if d else e.orelse)
+        if isinstance(e, ast.Subscript) and isinstance(e.slice, ast.Slice) and e.slice.step is None and e.slice.upper is not None:
+            lo = env.eval(e.slice.lower) if e.slice.lower is not None else Lin.const(0)
+            hi = env.eval(e.slice.upper)
+            if isinstance(lo, Lin) and isinstance(hi, Lin) and env.prove_le(0, lo) and env.prove_le(lo, hi):
+                env.eval(e.value)
+                return hi - lo            # len(x[lo:hi]) <= hi - lo for 0 <= lo <= hi, whatever len(x) is
+        val = env.eval(e)
+        if val is NONE:
+            return None
+        ln = env.length(val, short(e, 30))
+        return ln if isinstance(ln, Lin) and not ln.tainted() else None
+
+    def understood(self, env, ln):
+        for a in ln.atoms():
+            inner = a[1] if a[0] == 'len' else a
+            while isinstance(inner, tuple) and inner and inner[0] in ('len', 'sub'):
+                inner = inner[1]
+            if a[0] in ('min', 'max'):
+                continue
+            if inner[0] == 'v' and (inner[1].startswith('self.') or inner[1] in self.params):
+                continue
+            if inner in env.ghost['known'] or env.kind.get(inner) in ('int', 'nat'):
+                continue
+            if a[0] != 'len' and inner[0] == 'sym':
+                continue            # a number of unknown value
+            return False
+        return True
+
+    # ------------------------------------------------------------------ driver
+    def on_node(self, env, n, label):
+        env.ghost['callmemo'] = {}
+        if label == 'exc' or n.kind != 'stmt':
+            return
+        s = n.ast
+        if isinstance(s, (ast.Assign, ast.AnnAssign, ast.AugAssign)):
+            ub = dict(env.ghost['ub'])
+            tg = s.targets if isinstance(s, ast.Assign) else [s.target]
+            for x in ast.walk(s):
+                if isinstance(x, ast.Name) and isinstance(x.ctx, ast.Store):
+                    ub.pop(x.id, None)
+            if not isinstance(s, ast.AugAssign) and getattr(s, 'value', None) is not None and len(tg) == 1 and isinstance(tg[0], ast.Name) \
+                    and isinstance(s.value, (ast.Subscript, ast.BinOp)):
+                u = self.upper(env, s.value)
+                if u is not None:
+                    ub[tg[0].id] = u
+            env.ghost['ub'] = ub
+        if isinstance(s, ast.Return) and s.value is not None:
+            cap = env.var(CAP)
+            if self.f.name == '_normalize_size':
+                val = env.eval(s.value)
+                ok = isinstance(val, Lin) and env.prove_le(val, cap)
+                self.v.note(self.f, 'normalised size @%s' % unparse(s), 'for a non-negative size the normalised size does not exceed it', ok, s,
+                            'the normalised size is %r, not provably <= size' % (val,), self.wit,
+                            'read(3) on a 10-byte stream is normalised to more than 3 bytes')
+                return
+            u = self.upper(env, s.value)
+            if u is None:
+                self.v.unknown('%s: length of `%s` not understood (%s)' % (self.f.qual, short(s.value, 50), '; '.join(env.notes[-2:])))
+                return
+            ok = env.prove_le(u, cap)
+            if not ok and not self.understood(env, u - cap):
+                self.v.unknown('%s: `%s` is %r byte(s) long, which the rule cannot relate to the cap' % (self.f.qual, short(s.value, 50), u))
+                return
+            self.v.note(self.f, 'cap @%s' % unparse(s), 'a read with a non-negative size returns at most `size` bytes (callees of the reader are bounded by '
+                        'their own caps)', ok, s, 'up to %r byte(s) are returned for a cap of %r; not provably within the cap' % (u, cap), self.wit,
+                        'BufferedReader over b"Hello\\nabc\\nxyz\\n": readline() -> b"Hello\\n", then readline(3) returns b"abc\\n" (4 bytes) instead of b"abc"; '
+                        'every later operation is shifted by one byte')
+
+    def execute(self):
+        cfg = self.cfg
+        for start, steps, end in segments(cfg):
+            if end == cfg.xexit:
+                continue
+            if start != cfg.entry:
+                if any(cfg.node(n).kind == 'stmt' and isinstance(cfg.node(n).ast, ast.Return) and cfg.node(n).ast.value is not None for (n, _l) in steps):
+                    self.v.unknown('%s: a return inside / behind a loop is not followed' % self.f.qual)
+                continue
+            self.wit = flow.describe_path(cfg, [s[0] for s in steps])
+            for e in _run_steps(self.start_env(), cfg, steps, self.on_node):
+                pass
+
+
+def r12_size_cap(run):
+    """Synchronous reader: size >= 0 ==> every read-like method returns at most `size` bytes."""
+    p = run.project
+    rd = Reader(p, SYNC)
+    require_attrs(p, SYNC, [BUDGET, SOURCE_FN])
+    v = Verdicts(run)
+    for name in list(_CAP_ASSUMED) + list(_CAP_SINKS):
+        if name not in rd.methods:
+            raise AnchorError('%s.%s not found (assumed contract of the size-cap rule)' % (SYNC, name))
+    run.assume('C14 R12: contract of every synchronous reader method with a `size` parameter: size >= 0 ==> len(result) <= size. Proved per method from the '
+               'contracts of the reader methods it calls; taken as given for: ' + '; '.join('%s (%s)' % kv for kv in sorted(_CAP_ASSUMED.items()))
+               + '; pipe_until writes at most `_size` bytes to its destination; the source callable returns at most the number of bytes it is asked for')
+    todo = [f for name, f in sorted(rd.methods.items()) if CAP in f.params() and name not in _CAP_ASSUMED and name != '__init__']
+    if len(todo) < 4:
+        raise AnchorError('%s: fewer than 4 methods take a `size` cap' % SYNC)
+    for f in todo:
+        _CapModel(run, v, rd, f).execute()
+    v.flush()
+
+
 def check(run):
     run.assume('C14: only falcon/util/reader.py and falcon/asgi/reader.py are decided; falcon/cyutil/reader.pyx (the compiled twin) is not analysed')
     run.extra['twin_drift_note'] = 'falcon/cyutil/reader.pyx is a hand-maintained Cython twin of falcon/util/reader.py; not parsed, not compared'
@@ -1720,3 +2031,4 @@ def check(run):
     run.rule('R9', r9_sync_cursor_conservation, 'sync reader: the cursor stands behind the last byte handed out after every replacement / trim / return', floor=8)
     run.rule('R10', r10_sync_delimiter_not_split, 'sync reader: "enough is buffered" after a failed search keeps len(delimiter) - 1 bytes back', floor=1)
     run.rule('R11', r11_min_chunk, 'async reader: every chunk of the normalising source iterator but the last covers the one-chunk look-ahead of the delimiter search', floor=3)
+    run.rule('R12', r12_size_cap, 'sync reader: a read with a non-negative size returns at most `size` bytes (per-method contracts)', floor=10)
